@@ -95,6 +95,13 @@ def main():
 
     if ctx.replay:
         rp = json.load(open(ctx.replay if os.path.isabs(ctx.replay) else os.path.join(VERIF, ctx.replay)))
+        if "mode" in rp:
+            import storelib
+            sb = build_harness(ctx, ["storerun"])
+            res = storelib.run_store(ctx, sb, rp["mode"], rp["seed"], rp["n"], "rp")
+            if [r for r in res if not r["ok"]]:
+                violation(ctx, rp)
+            finish(ctx)
         h = rerun(ctx, bins, rp["history"])
         fails = mon(h) if h else [(-1, "replay could not be executed")]
         bad = replay_in_coq(ctx, [h], prop_code=code) if h else {}
@@ -164,6 +171,15 @@ def main():
         "logical clock: timers fire only when the harness' clock has passed created+delay (Go timers do not fire early)",
     ]
 
+    if prop == "C10":
+        # the codec: payloads of every JSON type through the real JsonDataStore (the round trip is a hypothesis of the model)
+        import storelib
+        sb = build_harness(ctx, ["storerun"])
+        n = 250 if ctx.tier == "quick" else 2500
+        res = storelib.run_store(ctx, sb, "seq", ctx.seed, n) if sb else [{"ok": False, "what": "storerun does not build"}]
+        ctx.coverage["codec_round_trips"] = len(res)
+        for r in [r for r in res if not r["ok"]][:2]:
+            violation(ctx, {"what": r.get("what"), "mode": "seq", "seed": ctx.seed, "n": n, "case": r})
     if not proof_ok:
         violation(ctx, {"what": "Coq development for %s does not check" % prop, "broken": "Properties/%s.v or its dependencies" % prop,
                         "log": ctx.log_lines[-5:]}, found_input=False)
